@@ -118,6 +118,9 @@ def run(ctx):
         cs = con.calls(p, row["setter"])
         gs, rooted = from_frame(cs[0]["args"][0]) if len(cs) == 1 else (set(), False)
         ok = len(cs) == 1 and gs == {row["source"]} and rooted and facts.flows_unchanged(con.fn, cs[0]["args"][0], row["source"])
+        ls = facts.lossy_step(con.fn, cs[0]["args"][0], row["source"]) if ok else None
+        if ls:
+            res.bad("C04-R1", "decode:%s:value-kept" % row["setter"].split("::")[-1], cs[0].get("loc"), "%s: wire values outside that type's range are reported changed" % ls)
         res.check(ok, "C04-R1", "decode:%s" % row["setter"].split("::")[-1], cs[0].get("loc") if cs else dec.loc,
                   "%s <- %s" % (row["setter"].split("::")[-1], row["source"].split("::")[-1]),
                   "%s is fed from %s, expected exactly %s" % (row["setter"], sorted(gs) if cs else "nothing", row["source"]))
@@ -215,6 +218,9 @@ def run(ctx):
         if "message_types" not in row:
             cs = list(f.calls(row["setter"]))
             ok = len(cs) == 1 and getters_in(f, cs[0]["args"][0], MH) == {row["source"]} and facts.flows_unchanged(f, cs[0]["args"][0], row["source"])
+            ls = facts.lossy_step(f, cs[0]["args"][0], row["source"]) if ok else None
+            if ls:
+                res.bad("C04-R1", "setMessageHeader:%s:value-kept" % tag, cs[0].get("loc"), "%s: wire values outside that type's range are reported changed" % ls)
             on_all = all(any(callee_name(x) == row["setter"] for x in ex) for ex in per_type.values())
             res.check(ok and on_all, "C04-R1", "setMessageHeader:%s" % tag, cs[0].get("loc") if cs else f.loc, "%s <- %s for every message type" % (tag, row["source"].split("::")[-1]),
                       "%s is not fed from exactly %s for every message type" % (tag, row["source"]))
@@ -223,6 +229,9 @@ def run(ctx):
                 cs = [x for x in per_type[nm] if callee_name(x) == row["setter"]]
                 if nm in row["message_types"]:
                     ok = len(cs) == 1 and getters_in(f, cs[0]["args"][0], MH) == {row["source"]} and facts.flows_unchanged(f, cs[0]["args"][0], row["source"])
+                    ls = facts.lossy_step(f, cs[0]["args"][0], row["source"]) if ok else None
+                    if ls:
+                        res.bad("C04-R1", "setMessageHeader:%s:%s:value-kept" % (nm, tag), cs[0].get("loc"), "%s: wire values outside that type's range are reported changed" % ls)
                     res.check(ok, "C04-R1", "setMessageHeader:%s:%s" % (nm, tag), cs[0].get("loc") if cs else f.loc, "%s message: %s <- %s" % (nm, tag, row["source"].split("::")[-1]),
                               "%s message: %s is not fed from %s" % (nm, tag, row["source"]))
                 else:
